@@ -30,6 +30,8 @@ type scenario struct {
 	StoreKind string `json:"store"`      // recording | gossip
 	K         int    `json:"crash_at_write"`
 	Before    bool   `json:"crash_before_commit"`
+	K2        int    `json:"second_crash_at_write_of_restarted,omitempty"` // 0: the restarted incarnation does not crash
+	Before2   bool   `json:"second_crash_before_commit,omitempty"`
 	Bystander int    `json:"bystanders"`
 }
 
@@ -258,39 +260,68 @@ func runScenario(t *testing.T, run *vt.Run, c vt.CaseID, sc scenario, dry bool) 
 			return
 		}
 		run.Count("crash_points_reached", 1)
-		// ---- state recorded at the crash
-		d := w.desc()
-		entry, there := d.Ingesters["victim-1"]
-		var fileTokens ring.Tokens
-		if w.victim.TokensFile != "" {
-			fileTokens, _ = ring.LoadTokensFromFile(w.victim.TokensFile)
-		}
-		w.log("crashed after %d commits; entry present=%v state=%v tokens=%v reg=%d; file tokens=%v", commits, there, entry.State, entry.Tokens, entry.RegisteredTimestamp, fileTokens)
-		// ---- restart with the same identity
-		time.Sleep(2 * time.Second)
-		restartAt := time.Now()
+		// ---- state recorded at the crash; restart with the same identity. With a second crash plan the
+		// restarted incarnation is parked at its K2-th write as well and a third incarnation is judged
+		// against what was recorded at the second crash.
+		var (
+			entry      ring.InstanceDesc
+			there      bool
+			fileTokens ring.Tokens
+			restartAt  time.Time
+			states     []ring.InstanceState
+			v2         *lcsim.Inst
+		)
 		rc := w.victim
-		v2, err := lcsim.NewWithClient(rc, 2, w.client("victim-1#2"))
-		if err != nil {
-			run.Inconclusive(err.Error())
-			return
-		}
-		toStop = append(toStop, v2)
-		_ = v2.Start()
-		// poll the published state once per virtual second during the settle time
-		var states []ring.InstanceState
 		settle := rc.JoinAfter + rc.Observe + 3*rc.Heartbeat + 12*time.Second
-		synctest.Wait()
-		for x := time.Duration(0); x < settle; x += 250 * time.Millisecond {
-			if e, ok := w.desc().Ingesters["victim-1"]; ok {
-				if len(states) == 0 || states[len(states)-1] != e.State {
-					states = append(states, e.State)
-				}
+		for inc := 2; ; inc++ {
+			d := w.desc()
+			entry, there = d.Ingesters["victim-1"]
+			fileTokens = nil
+			if w.victim.TokensFile != "" {
+				fileTokens, _ = ring.LoadTokensFromFile(w.victim.TokensFile)
 			}
-			noteHeld()
-			checkTokensFile(w, held, viol)
-			time.Sleep(250 * time.Millisecond)
+			w.log("incarnation %d crashed (after %d commits of the first); entry present=%v state=%v tokens=%v reg=%d; file tokens=%v", inc-1, commits, there, entry.State, entry.Tokens, entry.RegisteredTimestamp, fileTokens)
+			time.Sleep(2 * time.Second)
+			restartAt = time.Now()
+			var cl kv.Client = w.client(fmt.Sprintf("victim-1#%d", inc))
+			var ck2 *lcsim.CrashKV
+			if inc == 2 && sc.K2 > 0 {
+				ck2 = lcsim.NewCrashKV(cl, sc.K2, sc.Before2)
+				crashers = append(crashers, ck2)
+				cl = ck2
+			}
+			v2, err = lcsim.NewWithClient(rc, inc, cl)
+			if err != nil {
+				run.Inconclusive(err.Error())
+				return
+			}
+			toStop = append(toStop, v2)
+			_ = v2.Start()
+			// poll the published state four times per virtual second during the settle time
+			states = nil
 			synctest.Wait()
+			for x := time.Duration(0); x < settle; x += 250 * time.Millisecond {
+				if e, ok := w.desc().Ingesters["victim-1"]; ok {
+					if len(states) == 0 || states[len(states)-1] != e.State {
+						states = append(states, e.State)
+					}
+				}
+				noteHeld()
+				checkTokensFile(w, held, viol)
+				if ck2 != nil && ck2.IsDead() {
+					break
+				}
+				time.Sleep(250 * time.Millisecond)
+				synctest.Wait()
+			}
+			if ck2 != nil && ck2.IsDead() {
+				run.Count("second_crash_points_reached", 1)
+				continue
+			}
+			if ck2 != nil {
+				run.Count("second_crash_point_not_reached", 1)
+			}
+			break
 		}
 		w.log("after restart the entry went through %v", states)
 		fin := w.desc()
@@ -546,7 +577,7 @@ func runFaults(t *testing.T, run *vt.Run, c vt.CaseID, fc faultCase) {
 
 func TestC09(t *testing.T) {
 	run := vt.NewRun("C09", "fault_enumeration")
-	run.SetRule("case = (scenario in {fresh join, join with observe period, restart from tokens file, graceful leave with and without unregistering, token claim}, lifecycler kind, store kind in {recording store, gossip store on a detached node}, crash point = before or after the commit of the k-th store write of the victim, k = 1..W with W counted by a dry run); the victim is parked at the crash point, a new lifecycler with the same identity is started and after join-after + observe + 3 heartbeat periods (+12 s) must be ACTIVE with the configured token count, the tokens and registration time the ring (or, if the ring has none, the tokens file) recorded at the crash, having passed through PENDING if it died JOINING, without sharing a token with another instance; the tokens file is parsed after every virtual second. Plus fault windows on the recording store: windows of failing Get/CAS of every start x length on a grid, a wipe of the ring key inside or outside the window, a wipe during leaving; two heartbeats after the window the entry must be back with the remembered state and tokens, a fresh registration time iff it had vanished, and fresh heartbeats. The crash-point space per scenario is enumerated completely. non-trivial: every reached crash point / every fault case; distinct by case; distinct crash states counted.")
+	run.SetRule("case = (scenario in {fresh join, join with observe period, restart from tokens file, graceful leave with and without unregistering, token claim}, lifecycler kind, store kind in {recording store, gossip store on a detached node}, crash point = before or after the commit of the k-th store write of the victim, k = 1..W with W counted by a dry run; plus, per first crash point, a second crash of the restarted incarnation before/after its 1st..3rd write - one seeded choice in quick, all six in thorough - after which a third incarnation is judged against the record at the second crash); the victim is parked at the crash point, a new lifecycler with the same identity is started and after join-after + observe + 3 heartbeat periods (+12 s) must be ACTIVE with the configured token count, the tokens and registration time the ring (or, if the ring has none, the tokens file) recorded at the crash, having passed through PENDING if it died JOINING, without sharing a token with another instance; the tokens file is parsed after every virtual second. Plus fault windows on the recording store: windows of failing Get/CAS of every start x length on a grid, a wipe of the ring key inside or outside the window, a wipe during leaving; two heartbeats after the window the entry must be back with the remembered state and tokens, a fresh registration time iff it had vanished, and fresh heartbeats. The crash-point space per scenario is enumerated completely. non-trivial: every reached crash point / every fault case; distinct by case; distinct crash states counted.")
 	// enumerate: dry runs first (sequential, cheap), then all crash points
 	type plan struct {
 		sc scenario
@@ -574,6 +605,19 @@ func TestC09(t *testing.T) {
 							s2 := sc
 							s2.K, s2.Before = k, before
 							plans = append(plans, plan{s2})
+							// a second crash of the restarted incarnation at its 1st..3rd write (thorough: all
+							// of them; quick: one seeded choice per first crash point)
+							pick := vt.Mix(uint64(len(plans)), uint64(vt.Seed()), 9) % 6
+							for k2 := 1; k2 <= 3; k2++ {
+								for bi, b2 := range []bool{true, false} {
+									if !vt.Thorough() && pick != uint64((k2-1)*2+bi) {
+										continue
+									}
+									s3 := s2
+									s3.K2, s3.Before2 = k2, b2
+									plans = append(plans, plan{s3})
+								}
+							}
 						}
 					}
 				}
